@@ -627,7 +627,8 @@ def angvec2r(theta, v, unit='rad'):
 
     # Rodrigue's equation
 
-    sk = base.skew(base.unitvec(v))
+    v = base.getvector(v, 3)
+    sk = base.skew(v / base.norm(v))
     R = np.eye(3) + math.sin(theta) * sk + (1.0 - math.cos(theta)) * sk @ sk
     return R
 
